@@ -1391,11 +1391,17 @@ def evaluate__parse_xml(self: XPathFunction, context: ta.ContextType = None) \
         raise self.missing_context()
 
     etree = context.etree
+    kwargs = {}
+    if hasattr(etree, 'TreeBuilder') and not hasattr(etree, 'LXML_VERSION'):
+        # xml.etree.ElementTree drops comments and processing instructions for default
+        kwargs['parser'] = etree.XMLParser(
+            target=etree.TreeBuilder(insert_comments=True, insert_pis=True)
+        )
     try:
         if self.parser.defuse_xml:
-            root = etree.XML(defuse_xml(arg.encode('utf-8')))
+            root = etree.XML(defuse_xml(arg.encode('utf-8')), **kwargs)
         else:
-            root = etree.XML(arg.encode('utf-8'))
+            root = etree.XML(arg.encode('utf-8'), **kwargs)
     except etree.ParseError:
         raise self.error('FODC0006')
     else:
